@@ -41,6 +41,11 @@ def main():
             block += ('EARLIER SEEDERS already made the following changes for this property - do something DIFFERENT '
                       '(another clause of the property, another mechanism, preferably another function or file):\n'
                       + ''.join(f'  - {e}\n' for e in earlier) + '\n')
+        if rnd.isdigit() and int(rnd) >= 5:
+            block += ('Many obvious places have been used up: also consider the helper code the anchored files rely on '
+                      '(frappy/lib/*.py, frappy/properties.py, frappy/errors.py, frappy/params.py, frappy/config.py, '
+                      'frappy/rwhandler.py, frappy/mixins.py, frappy/features.py) and rarely used options / class shapes that '
+                      'still fall under the quantifier of the property.\n\n')
         block += ('Prefer a break that is hard to observe: one that needs a particular interleaving of two threads, a fault '
                   'at a particular point, a particular multi-step history, or a rare input class - and that a generic '
                   'randomised smoke test of the obvious API would most likely not stumble over.\n\n')
